@@ -372,6 +372,29 @@ def shrink(case):
                 j[key] = dv
                 yield _case(j)
         return
+    if inp['opts'].get('many'):
+        # more than 256 templates: every candidate is a conversion + a model evaluation of several seconds, so only a
+        # handful of candidates per round: drop a half / a quarter of the spikes, the feature store, then single spikes
+        # once at most 6 are left; the templates themselves are kept (their number is the point of the case)
+        sem = inp['probes'][0]
+        n = sem['n_spikes']
+        blocks = [range(n // 2, n), range(0, n // 2), range(3 * n // 4, n), range(0, n // 4)] if n > 6 else [[i] for i in range(n)]
+        for blk in blocks:
+            s = sem
+            for i in sorted(blk, reverse=True):
+                s = G.drop_spike(s, i) if s is not None else None
+            if s is not None and s.get('spike_clusters') is not None:
+                yield _case(_with_probe(inp, 0, s))
+        if sem.get('features') is not None:
+            s = copy.deepcopy(sem)
+            s['features'] = None
+            yield _case(_with_probe(inp, 0, s))
+        for key, dv in (('factor', 1.0), ('label', ''), ('force', False)):
+            if inp.get(key) != dv:
+                j = copy.deepcopy(inp)
+                j[key] = dv
+                yield _case(j)
+        return
     if inp['merged']:
         for k in range(len(inp['probes'])):
             j = X.drop_probe(inp, k)
